@@ -96,6 +96,8 @@ def gen_site(rng: random.Random, scratch: str, name_classes=("plain", "spaces", 
                          "Name=Local Again\nType=0\nPath=/umn/one.txt\nHost=+\nPort=+\n\n"
                          "Name=Other port here\nType=1\nPath=/otherport\nHost=+\nPort=7070\n\n"
                          "Name=Relative with plus\nType=0\nPath=one.txt\nHost=+\nPort=+\n\n"
+                         "Name=Finger information\nType=0\nPath=lindner\nHost=mudhoney.example.org\nPort=79\n\n"
+                         "Name=Bucktooth style remote\nType=1\nPath=1/docs/about\nHost=other.example.org\nPort=70\n\n"
                          "Name=Relative bare\nType=0\nPath=two.txt\n\n"
                          "Name=Other host std port\nType=1\nPath=/otherhost\nHost=gopher2.example.org\nPort=+\n")
     t.file("umn/.abstract", "Directory about UMN things")
